@@ -443,7 +443,10 @@ class KindInferenceMapper(Mapper):
                     "which is a '%s'"
                     % (expr.aggregate, type(agg_kind).__name__))
 
-        return Scalar(is_real_valued=agg_kind.is_real_valued)
+        # (While kinds are still being inferred, the aggregate may not have
+        # been widened to an array yet: it may be an integer, which has no
+        # real/complex-ness of its own.)
+        return Scalar(is_real_valued=getattr(agg_kind, "is_real_valued", True))
 
 # }}}
 
